@@ -128,7 +128,7 @@ def __init__(self, opts):
     if len(options) == 0:
         raise RejectionException(_ANY_)
 
-    index = self.makeSelector(len(options) - 1, weights)
+    index = self.makeSelector(len(options) - _K_highOff, weights)
     super().__init__(index, options)
 '''
 T_OPTIONS_DROP = T_OPTIONS % "if prob == 0:\n                continue"
@@ -136,7 +136,7 @@ T_OPTIONS_KEEP = T_OPTIONS % "pass"
 
 T_SELECTOR = '''
 def makeSelector(n, weights):
-    return DiscreteRange(0, n, weights)
+    return DiscreteRange(_K_selLow, n, weights)
 '''
 
 T_DR_INIT = '''
@@ -154,7 +154,7 @@ def __init__(self, low, high, weights=None, emptyMessage="empty DiscreteRange"):
             raise ValueError(_ANY_)
         self.weights = weights
         self.cumulativeWeights = tuple(itertools.accumulate(weights))
-        self.options = tuple(range(low, high + 1))
+        self.options = tuple(range(low, high + _K_rangeOff))
     else:
         self.low = type_support.toScalar(low, _ANY_)
         self.high = type_support.toScalar(high, _ANY_)
@@ -166,7 +166,7 @@ def __init__(self, low, high, weights=None, emptyMessage="empty DiscreteRange"):
 T_DR_SAMPLE = '''
 def sampleGiven(self, value):
     if self.weights:
-        return random.choices(self.options, cum_weights=self.cumulativeWeights)[0]
+        return random.choices(self.options, cum_weights=self.cumulativeWeights)[_K_takeIdx]
     left, right = math.ceil(value[self.low]), math.floor(value[self.high])
     if right < left:
         raise RejectionException(self.emptyMessage)
@@ -357,7 +357,9 @@ def match_template(template, fn, what):
     return m.data
 
 
-REFERENCE = {"defaultWeight": 1, "shortcutLen": 1, "shortcutIdx": 0, "dropZero": True, "copyOperand": True}
+REFERENCE = {"defaultWeight": 1, "shortcutLen": 1, "shortcutIdx": 0, "dropZero": True, "copyOperand": True,
+             # Options -> DiscreteRange -> random.choices -> Multiplexer (round 4: `optionsSelect`)
+             "highOff": 1, "selLow": 0, "rangeOff": 1, "takeIdx": 0}
 
 
 def extract():
@@ -398,12 +400,14 @@ def extract():
     def options():
         opt_init = get_def(dist, "Options.__init__", DISTRIBUTIONS)
         try:
-            match_template(T_OPTIONS_DROP, opt_init, "Options.__init__")
+            d = match_template(T_OPTIONS_DROP, opt_init, "Options.__init__")
             data["dropZero"] = True
+            data["highOff"] = d["highOff"]
         except TemplateMismatch as first:
             try:
-                match_template(T_OPTIONS_KEEP, opt_init, "Options.__init__")
+                d = match_template(T_OPTIONS_KEEP, opt_init, "Options.__init__")
                 data["dropZero"] = False
+                data["highOff"] = d["highOff"]
             except TemplateMismatch:
                 raise first
 
@@ -424,21 +428,29 @@ def extract():
             ("visit_DoChoose", T_VISIT_CHOOSE, comp, "visit_DoChoose", COMPILER),
             ("visit_DoShuffle", T_VISIT_SHUFFLE, comp, "visit_DoShuffle", COMPILER),
             ("makeDoLike", T_MAKEDOLIKE, comp, "makeDoLike", COMPILER)):
-        attempt(name, lambda tmpl=tmpl, tree=tree, qual=qual, rel=rel, name=name:
-                match_template(tmpl, get_def(tree, qual, rel), name))
+        def simple(tmpl=tmpl, tree=tree, qual=qual, rel=rel, name=name):
+            d = match_template(tmpl, get_def(tree, qual, rel), name)
+            for key in ("selLow", "rangeOff", "takeIdx"):  # integer constants of the selector pipeline
+                if key in d:
+                    data[key] = d[key]
+        attempt(name, simple)
     data["matched"] = matched
     return data, mismatches
 
 
 def to_lean(d):
     shapes = ", ".join(f'"{m}"' for m in d["matched"])
-    return f"""import ScenicModel.Model.Choose
+    return f"""import ScenicModel.Model.ChooseSelect
 namespace Scenic.Gen
 /-- constants read from `_invokeSubBehavior.pickEnabledInvocable` / the shuffle branch / `Options.__init__`
 (reference values for a function whose shape did not match its template on this run) -/
 def chooseConfig : Scenic.Choose.Config :=
   {{ defaultWeight := {d['defaultWeight']}, shortcutLen := {d['shortcutLen']}, shortcutIdx := {d['shortcutIdx']}, dropZero := {str(d['dropZero']).lower()},
     copyOperand := {str(d['copyOperand']).lower()} }}
+/-- integer constants of `Options.__init__` (`len(options) - highOff`), `Options.makeSelector` (`DiscreteRange(selLow, …)`),
+`DiscreteRange.__init__` (`range(low, high + rangeOff)`) and `DiscreteRange.sampleGiven` (`choices(…)[takeIdx]`) -/
+def selectConfig : Scenic.Choose.SelectConfig :=
+  {{ highOff := {d['highOff']}, selLow := {d['selLow']}, rangeOff := {d['rangeOff']}, takeIdx := {d['takeIdx']} }}
 /-- functions whose statement-by-statement shape matched the model's template on this run (informational) -/
 def chooseMatchedShapes : List String := [{shapes}]
 end Scenic.Gen
